@@ -32,9 +32,9 @@ connector, or the caller's connector accepting invalid certificates (`set_connec
 Outcomes other than Ok/Err which the code has and the model keeps: `hang` (the server stays silent -
 possibly after frames for other message IDs, which are dropped - and the caller set no
 `conn_timeout`: the future does not resolve; with `conn_timeout` it is `Err(Timeout)`; waiting without
-a limit is the caller's choice) and `panic` (a frame with the request's ID whose protocolOp is not a
-well-formed LDAPResult: the documented `From<Tag>` panic `expect("ldap result")` in `op_call`).
-Neither hands back a handle.  A peer which CLOSES (or resets) instead of answering is an `Err` at
+a limit is the caller's choice).  It hands back no handle.  A frame with the request's ID whose protocolOp is
+not a well-formed LDAPResult is `Err(notLdapResult)` — `op_call`'s decoding error since the F27 repair (it was the
+`expect("ldap result")` panic on the caller's task before).  A peer which CLOSES (or resets) instead of answering is an `Err` at
 once, with or without `conn_timeout` (/repo commit "fix: StartTLS establishment fails instead of
 hanging when the peer closes or answers another ID").
 -/
@@ -114,7 +114,7 @@ dropped and do not end it),
       success response: it can never make the client wait,
   (e) silence (`atEnd = silent`, nothing with ID 1 so far)     ⇒ a stall: `Err(Timeout)` under `conn_timeout`,
                                                                  else the future does not resolve,
-  (f) ID 1 but not an LDAPResult                               ⇒ `panic` on the caller's task,
+  (f) ID 1 but not an LDAPResult                               ⇒ `Err` (decoding error; a panic on the caller's task before F27),
   (g) the request was never sent (socket served first, ended in close/garbage) ⇒ `Err`, nothing written.
 In all of (c)-(g) the only cleartext write is the request (none in (g)) and `has_tls` stays false. -/
 theorem C17_failures (lib : TlsLib) (hlib : lib.Sound) (c : Cfg) (s : Server) (hreq : c.mode ≠ .plain) :
@@ -125,7 +125,7 @@ theorem C17_failures (lib : TlsLib) (hlib : lib.Sound) (c : Cfg) (s : Server) (h
       (∀ x, answer s = some x →
         (∀ op sk skb resp rest unread, x = .response op sk skb resp rest unread →
           (∀ r, resultExt op = some r → r.rc ≠ 0 → (establish lib c s).outcome = .err (.ldapResult r.rc)) ∧
-          (resultExt op = none → (establish lib c s).outcome = .panic)) ∧
+          (resultExt op = none → (establish lib c s).outcome = .err .notLdapResult)) ∧
         (∀ sk skb, x = .driverErr sk skb → (establish lib c s).outcome = .err .driverEnded) ∧
         (∀ sk skb, x = .waiting sk skb → (establish lib c s).outcome = stall c ∧ s.atEnd = .silent) ∧
         (s.atEnd ≠ .silent → (∃ sk skb, x = .driverErr sk skb) ∨
@@ -295,7 +295,7 @@ example : (establish refLib exStartTls { chunks := [[0x30, 0x00]], atEnd := .eof
     (establish refLib exStartTls { chunks := [], atEnd := .reset, peer := exGoodPeer }).outcome = .err .driverEnded ∧
     (establish refLib exStartTls { chunks := [], atEnd := .silent, peer := exGoodPeer }).outcome = .hang ∧
     (establish refLib { exStartTls with connTimeout := true } { chunks := [], atEnd := .silent, peer := exGoodPeer }).outcome = .err .timeout ∧
-    (establish refLib exStartTls { chunks := [[0x30, 0x05, 0x02, 0x01, 0x01, 0x78, 0x00]], atEnd := .silent, peer := exGoodPeer }).outcome = .panic := by
+    (establish refLib exStartTls { chunks := [[0x30, 0x05, 0x02, 0x01, 0x01, 0x78, 0x00]], atEnd := .silent, peer := exGoodPeer }).outcome = .err .notLdapResult := by
   decide
 -- a frame for another ID (here ID 2) is dropped: followed by the response the exchange completes,
 -- followed by silence the client waits, followed by close it is an error
